@@ -20,6 +20,8 @@ type MgrCase struct {
 	Op       string `json:"op"` // update | build
 	Skip     bool   `json:"skip_update"`
 	Deps     string `json:"deps"` // file | none
+	// Ignore: a .helmignore that lists both lock file names (the loader then never reads the planted object)
+	Ignore bool `json:"helmignore,omitempty"`
 }
 
 var mgrPlants = []string{"none", "stale-file", "sym-secret", "sym-lock", "sym-empty", "sym-garbage", "sym-dangling", "sym-dir"}
@@ -34,7 +36,7 @@ func (m *MgrCase) shape() string {
 }
 
 func (m *MgrCase) describe() string {
-	return fmt.Sprintf("Manager.%s on an apiVersion %s chart, deps=%s, skipUpdate=%v, %s planted at %s (abs link=%v)", m.Op, m.API, m.Deps, m.Skip, m.Plant, m.LockName, m.Abs)
+	return fmt.Sprintf("Manager.%s on an apiVersion %s chart, deps=%s, skipUpdate=%v, %s planted at %s (abs link=%v, lock names in .helmignore=%v)", m.Op, m.API, m.Deps, m.Skip, m.Plant, m.LockName, m.Abs, m.Ignore)
 }
 
 const staleLock = "dependencies:\n- name: dep\n  repository: file://../dep\n  version: 0.0.9\ndigest: sha256:0000\ngenerated: \"2020-01-01T00:00:00Z\"\n"
@@ -64,6 +66,11 @@ func (m *MgrCase) setup(b *fsbox) error {
 		}
 	} else {
 		if err := w(filepath.Join(dest, "Chart.yaml"), "apiVersion: v2\nname: parent\nversion: 0.1.0\n"+deps); err != nil {
+			return err
+		}
+	}
+	if m.Ignore {
+		if err := w(filepath.Join(dest, ".helmignore"), "Chart.lock\nrequirements.lock\n"); err != nil {
 			return err
 		}
 	}
